@@ -242,11 +242,11 @@ Definition alen (a : list value) : Z := Z.of_nat (List.length a).
 Definition arr_get (a : list value) (m : Z) : option value :=
   if arr_inb (alen a) m then nth_error a (zidx (alen a) m) else None.
 
-Fixpoint list_set {A} (l : list A) (i : nat) (x : A) : list A :=
+Fixpoint arr_set {A} (l : list A) (i : nat) (x : A) : list A :=
   match l, i with
   | [], _ => []
   | _ :: t, O => x :: t
-  | h :: t, S j => h :: list_set t j x
+  | h :: t, S j => h :: arr_set t j x
   end.
 Definition list_remove_at {A} (l : list A) (i : nat) : list A := firstn i l ++ skipn (S i) l.
 
@@ -357,7 +357,7 @@ Fixpoint put_indexed (base : value) (idx : list value) (v : value) {struct idx} 
               let n := alen a in
               if arr_inb n mi then
                 match rest with
-                | [] => VOk (VArr (list_set a (zidx n mi) v))
+                | [] => VOk (VArr (arr_set a (zidx n mi) v))
                 | k2 :: _ =>
                     let cur := nth (zidx n mi) a VAbsent in
                     match (match k2 with
@@ -367,7 +367,7 @@ Fixpoint put_indexed (base : value) (idx : list value) (v : value) {struct idx} 
                            end) with
                     | None => VErr
                     | Some cur' => match put_indexed cur' rest v with
-                                   | VOk sub => VOk (VArr (list_set a (zidx n mi) sub))
+                                   | VOk sub => VOk (VArr (arr_set a (zidx n mi) sub))
                                    | e => e
                                    end
                     end
@@ -428,7 +428,7 @@ Fixpoint remove_indexed (base : value) (idx : list value) {struct idx} : value :
               if arr_inb n mi then
                 match rest with
                 | [] => VArr (list_remove_at a (zidx n mi))
-                | _ => VArr (list_set a (zidx n mi) (remove_indexed (nth (zidx n mi) a VAbsent) rest))
+                | _ => VArr (arr_set a (zidx n mi) (remove_indexed (nth (zidx n mi) a VAbsent) rest))
                 end
               else base
           | _ => base
